@@ -958,15 +958,12 @@ theorem stepStrptime_sound (o : Oracle) (p : Prog) (arg : Operand) (t : Thread) 
     · split
       · exact ⟨hs, (pc + 1, r), List.mem_singleton.mpr rfl, hpc, hr'⟩
       · exact ⟨by decide, hs.forget⟩
-  cases s1 with
-  | nil => simp at hsu
-  | cons a r =>
-    cases rest with
-    | nil => exact absurd hr (by simp [sOK])
-    | cons v rest' =>
-      obtain ⟨hv, hr'⟩ := hr
-      cases a <;> simp only [Option.some.injEq, reduceCtorEq] at hsu <;> subst hsu <;>
-        cases v <;> simp only [vOK] at hv <;> exact hwith _ rest' r hr'
+  obtain ⟨s2, h2, hone⟩ := hsu
+  obtain ⟨ts, rest', hpop2, hr2⟩ := popString_sound o hs hr h2
+  simp only [hpop2]
+  simp only [Option.some.injEq] at hone
+  subst hone
+  exact hwith ts rest' s2 hr2
 
 /-- one verified instruction never faults, raises only checked errors, and lands in a state the
     certificate's successor describes -/
